@@ -221,7 +221,7 @@ def try_bridge(pid, gen, ximports, res):
         t0 = time.time()
         with build_lock():
             rc1, out1 = run(["lake", "build"] + list(ximports), cwd=LEAN, timeout=3600)
-            rc2, out2 = (1, "") if rc1 != 0 else run(["lake", "build", "KonstVerif.Extracted.Bridge"], cwd=LEAN, timeout=1200)
+            rc2, out2 = (1, "") if rc1 != 0 else run(["lake", "build", "KonstVerif.Extracted.Bridge"], cwd=LEAN, timeout=600)
         rec["seconds"] = round(time.time() - t0, 1)
         if rc1 != 0:
             rec["reason"] = "the equivalence theorems do not build against the committed generated text: " + out1[-300:]
